@@ -221,6 +221,7 @@ type World struct {
 	muOwner    map[sync.Locker][2]int // poolMu / rootsMu address -> (instance, incarnation)
 	rootsTasks int                    // setroots tasks in flight
 	bulkDone   bool
+	bulkCrashed bool
 	noYield    bool
 	admChecked int
 	bulkOK, bulkErr int
